@@ -293,15 +293,20 @@ func emit(out *lib.Out, spec RoundSpec, obs RoundObs) {
 		if len(d.NamerDelays) > 0 {
 			out.Count("db_staggered_cold_start", fmt.Sprint(d.G))
 		}
-		hasTx := false
+		hasTx, sessPrep := false, false
 		for _, p := range d.Programs {
 			for _, o := range p {
-				if o.Kind == "tx" {
+				// explicit transactions and the default transaction of every write
+				switch o.Kind {
+				case "tx", "create", "create_batch", "update", "updates", "delete", "fresh_update", "assoc_append", "assoc_replace", "assoc_delete", "assoc_clear":
 					hasTx = true
+				}
+				if strings.Contains(o.Sess, "prep") {
+					sessPrep = true
 				}
 			}
 		}
-		smallPool = (d.PrepareStmt || d.SessionPrep) && d.Conns < d.G && hasTx
+		smallPool = (d.PrepareStmt || d.SessionPrep || sessPrep) && d.Conns < d.G && hasTx
 		var fams []string
 		seen := map[string]bool{}
 		ops := 0
